@@ -102,6 +102,7 @@ class Gen:
     s.children = []       # child Gen objects (their class source goes first)
     s.in_ports = []
     s.fams = []           # readable array families: (format, dims, width)
+    s.limits = []         # input value limits the stimulus must respect: (regex on the port repr, int modulus | [(lo, width, modulus)])
 
   # ------------------------------------------------------------------ helpers
   def w(s): return s.rng.choice(WIDTHS)
@@ -199,15 +200,20 @@ class Gen:
   def leaf(s, w):
     rng = s.rng
     r = rng.random()
-    if r < 0.72: return s.sig_leaf(w), False
+    if r < 0.68: return s.sig_leaf(w), False
     ls = [l for l in s.lists if l[2] == w]
-    if ls and r < 0.84:
+    if ls and r < 0.82:
       t, n, _ = rng.choice(ls)
+      kidx = [b for b in s.bconsts if b[1] == clog2(n) and b[2] < n]
+      if not kidx and rng.random() < 0.25:
+        nm = f'KX{len(s.bconsts)}'; v = rng.randrange(n); s.head.append(f'{nm} = Bits{clog2(n)}( {v} )')
+        s.bconsts.append((nm, clog2(n), v)); kidx = [s.bconsts[-1]]
+      if kidx and rng.random() < 0.3: s.feat('index-by-bits-const'); return f'{t}[ {rng.choice(kidx)[0]} ]', False
       sel = [a for a in s.avail if a.w == clog2(n) and (1 << a.w) == n]
       if sel and rng.random() < 0.6: s.feat('dyn-index'); return f'{t}[ {rng.choice(sel).text} ]', False
       return f'{t}[{rng.randrange(n)}]', False
     bc = [b for b in s.bconsts if b[1] == w]
-    if bc and r < 0.9: s.feat('closure-bits'); return rng.choice(bc)[0], True
+    if bc and r < 0.93: s.feat('bits-const-use'); return rng.choice(bc)[0], True
     if r < 0.97 and w <= 128:
       if rng.random() < 0.5:
         t, v = s.const_expr(w); s.feat('BitsN(const-expr)'); return f'Bits{w}( {t} )', True
@@ -275,7 +281,13 @@ class Gen:
       return f'{f}( {N(k)}, {w} )', False
     if r < 0.96 and w < 128:
       k = rng.choice([x for x in WIDTHS if x > w]); s.feat('trunc')
-      return f'trunc( {N(k)}, {w} )', False
+      a = N(k)
+      if s.ys_safe and re.fullmatch(r's\.\w+(\[[^\]]*\])*(\.\w+(\[[^\]]*\])*)+', a):
+        # the Yosys backend leaks the SystemVerilog spelling of a member access that is the direct operand of trunc()
+        # (known finding, directed designs D_trunc_*): keep it out of the designs meant to expose other things
+        a = f'({a} + 0)' if False else f'zext( {a}, {k + 1} )' if k < 128 else a
+        return (f'trunc( {a}, {w} )', False)
+      return f'trunc( {a}, {w} )', False
     return s.leaf(w)
 
   # ------------------------------------------------------------------ declarations
@@ -307,13 +319,67 @@ class Gen:
     if r < 0.3:
       s.feat('default-then-if')
       return [f'{target} {op} {s.expr(w)}', f'if {s.cond()}:', f'  {target} {op} {s.expr(w)}']
-    if r < 0.42 and op == '@=':
-      s.ntmp += 1; t = f't{s.ntmp}'; tw = w if rng.random() < 0.6 else s.w()
-      s.feat('tmpvar')
-      out = [f'{t} = {s.expr(tw)}']
-      s.avail.append(Sig(t, tw, sliceable=False)); s._tmp_added.append(s.avail[-1])
-      return out + [f'{target} {op} {s.expr(w)}']
+    if r < 0.5:
+      return s.tmp_pattern(target, w, op)
     return [f'{target} {op} {s.expr(w)}']
+
+  def new_tmp(s, w):
+    s.ntmp += 1; t = f't{s.ntmp}'
+    sig = Sig(t, w, sliceable=False, net_ok=False); s.avail.append(sig); s._tmp_added.append(sig)
+    return t
+
+  def scoped(s, fn):
+    """run a statement generator whose output will be nested under if/else/for: temporaries it creates stay local to it"""
+    n0 = len(s._tmp_added)
+    out = fn()
+    for a in s._tmp_added[n0:]:
+      if a in s.avail: s.avail.remove(a)
+    del s._tmp_added[n0:]
+    return out
+
+  def use_tmp(s, t, tw, w):
+    if tw == w: return t
+    return f'trunc( {t}, {w} )' if tw > w else f'zext( {t}, {w} )'
+
+  def tmp_pattern(s, target, w, op):
+    """statements that define `target` through temporaries (python locals): plain, chained multi-target, reassigned and
+    read in between, assigned in both branches of an if; the temporaries are always READ by a later statement of the block.
+    Used for `@=` in update blocks and for `<<=` in update_ff blocks."""
+    rng = s.rng
+    k = rng.random()
+    tw = w if rng.random() < 0.7 else s.w()
+    bop = lambda: rng.choice(['^', '+', '-', '|', '&'])
+    if k < 0.2:
+      s.feat('tmpvar')
+      e = s.expr(tw); t = s.new_tmp(tw)
+      return [f'{t} = {e}', f'{target} {op} ({s.use_tmp(t, tw, w)} {bop()} {s.expr(w)})']
+    if k < 0.5:
+      s.feat('tmpvar-chained')
+      e = s.expr(tw)
+      n = rng.choice([2, 2, 3]); ts = [s.new_tmp(tw) for _ in range(n)]
+      out = [' = '.join(ts) + f' = {e}']
+      a, b = rng.sample(ts, 2)
+      sh = rng.randrange(0, min(w, 4) + 1) if w > 1 else 0
+      out.append(f'{target} {op} ({s.use_tmp(a, tw, w)} {bop()} ({s.use_tmp(b, tw, w)} >> {sh}))')
+      return out
+    if k < 0.75:
+      s.feat('tmpvar-reassigned')
+      e = s.expr(tw); t = s.new_tmp(tw)
+      out = [f'{t} = {e}']
+      eu = f'({t} {bop()} {s.nonconst(tw, 2)})'                          # reads t between its two assignments
+      u = s.new_tmp(tw)
+      out.append(f'{u} = {eu}')
+      out.append(f'{t} = ({t} {bop()} {s.nonconst(tw, 2)})')
+      if rng.random() < 0.5: out.append(f'{u} = ({u} {rng.choice(["+", "^"])} {t})')
+      out.append(f'{target} {op} ({s.use_tmp(t, tw, w)} {bop()} {s.use_tmp(u, tw, w)})')
+      return out
+    s.feat('tmpvar-if')
+    c = s.cond()
+    e1, e2 = s.expr(tw), s.expr(tw)
+    t = s.new_tmp(tw)
+    out = [f'if {c}:', f'  {t} = {e1}', 'else:', f'  {t} = {e2}']
+    out.append(f'{target} {op} {s.use_tmp(t, tw, w)}' if rng.random() < 0.5 else f'{target} {op} ({s.use_tmp(t, tw, w)} {bop()} {s.expr(w)})')
+    return out
 
   def write_struct(s, target, T, op):
     rng = s.rng
@@ -349,11 +415,18 @@ class Gen:
     rng = s.rng
     s._tmp_added = []
     top = s.depth == 0
-    # constants
-    for i in range(rng.randrange(0, 3)):
-      w = s.w() if rng.random() < 0.5 else rng.choice([2, 4, 8]); v = rng.randrange(0, 1 << min(w, 20))
-      if w <= 128:
-        s.bconsts.append((f'KB{i}', w, v)); s.head.append(f'KB{i} = Bits{w}( {v} )')
+    # Bits constants: closure (local of construct) and module level, values >= 10, >= 16, near 2^n
+    for i in range(rng.randrange(1, 5)):
+      w = s.w() if rng.random() < 0.5 else rng.choice([2, 4, 5, 8, 8, 16, 32])
+      if w > 128: continue
+      top_v = (1 << w) - 1
+      v = rng.choice([10, 11, 15, 16, 17, 37, 99, 200, 255, 256, 4095, top_v, top_v - 1, top_v >> 1, (top_v >> 1) + 1, rng.randrange(0, top_v + 1), rng.randrange(0, top_v + 1)])
+      v = min(v, top_v)
+      if rng.random() < 0.4:
+        nm = f'KG{s.uid}_{i}'; s.pre.append(f'{nm} = Bits{w}( {v} )'); s.feat('global-bits')
+      else:
+        nm = f'KB{i}'; s.head.append(f'{nm} = Bits{w}( {v} )'); s.feat('closure-bits-decl')
+      s.bconsts.append((nm, w, v))
     nstruct = rng.choice([0, 1, 1, 2]) if s.focus != 'struct' else rng.choice([2, 3])
     for _ in range(nstruct): s.mk_struct()
     # inputs
@@ -410,6 +483,7 @@ class Gen:
       if r < 0.14: s.add_child(); continue
       if r < 0.22: s.add_list_unit(); continue
       if r < 0.30: s.add_array_unit(); continue
+      if r < 0.36 and top: s.add_varslice_unit(); continue
       if r < 0.40 and s.structs: s.add_struct_unit(); continue
       if r < 0.50: s.add_connect_unit(); continue
       # plain Bits target(s)
@@ -439,15 +513,17 @@ class Gen:
     while i < len(regs):
       grp = regs[i:i + rng.choice([1, 1, 2])]; i += len(grp)
       body = []
-      style = rng.choice(['reset', 'plain', 'enable', 'lastwins'])
+      s._tmp_added = []
+      style = rng.choice(['reset', 'plain', 'enable', 'lastwins', 'tmp', 'tmp'])
       for t, w in grp:
         if style == 'reset':
           rv = rng.randrange(0, 1 << min(w, 8)); s.feat('ff-reset')
-          body += ['if s.reset:', f'  {t} <<= {rv}', 'else:'] + ['  ' + x for x in s.assign_stmts(t, w, '<<=')]
+          body += ['if s.reset:', f'  {t} <<= {rv}', 'else:'] + ['  ' + x for x in s.scoped(lambda: s.assign_stmts(t, w, '<<='))]
         elif style == 'enable': s.feat('ff-enable'); body += [f'if {s.cond()}:', f'  {t} <<= {s.expr(w)}']
+        elif style == 'tmp': s.feat('ff-tmpvar'); body += s.tmp_pattern(t, w, '<<=')
         elif style == 'lastwins': s.feat('ff-last-wins'); body += [f'{t} <<= {s.expr(w)}', f'if {s.cond()}:', f'  {t} <<= {s.expr(w)}']
         else: body += s.assign_stmts(t, w, '<<=')
-      s.ff_block(body)
+      s.ff_block(s.finish_tmp(body))
     for t, T in sregs:
       body = s.write_struct(t, T, '<<=')
       if body is None: body = [f'{t} <<= {t}']
@@ -574,7 +650,13 @@ class Gen:
         body = [f'for i in range(0, {n}, 2):', f'  s.{nm}[i] @= {s.loop_rhs(w, srcs)}', f'for i in range(1, {n}, 2):', f'  s.{nm}[i] @= {s.loop_rhs(w, srcs)}']
       else:
         inner = [f's.{nm}[i] @= {s.loop_rhs(w, srcs)}']
-        if rng.random() < 0.3: inner = [f'if {s.cond()}:', f'  s.{nm}[i] @= {s.loop_rhs(w, srcs)}', 'else:', f'  s.{nm}[i] @= {s.expr(w)}']; s.feat('for-if')
+        if rng.random() < 0.3:
+          s.feat('tmpvar-in-loop')
+          def mk():
+            e = s.loop_rhs(w, srcs); t = s.new_tmp(w)
+            return [f'{t} = {e}', f's.{nm}[i] @= ({t} {rng.choice(["+", "^", "-"])} {s.nonconst(w, 2)})']
+          inner = s.scoped(mk)
+        elif rng.random() < 0.3: inner = [f'if {s.cond()}:', f'  s.{nm}[i] @= {s.loop_rhs(w, srcs)}', 'else:', f'  s.{nm}[i] @= {s.expr(w)}']; s.feat('for-if')
         body = [hdr] + ['  ' + x for x in inner]
         if form in ('neg', 'range2'): body += s.assign_stmts(f's.{nm}[0]', w, '@=')
     s.comb_block(s.finish_tmp(body))
@@ -781,6 +863,61 @@ class Gen:
     s.fams.append((fmt, list(dims), w))
     for e in s.fam_elems(fmt, dims): s.avail.append(Sig(e, w))
     if nd == 1 and dims[0] & (dims[0] - 1) == 0: s.lists.append((f's.{nm}', dims[0], w))
+
+  def add_varslice_unit(s):
+    """variable part selects  x[ e : e + N ]  whose offset e is an element of a port list (constant or loop-variable index),
+    a slice or a bit of a signal, a struct field, an element of a packed array field, or such a thing plus a constant.
+    pymtl3 raises IndexError when e + N leaves x (and e + N is computed in the width of e), so the ports that feed e are
+    dedicated inputs whose values the stimulus keeps small enough (s.limits)."""
+    rng = s.rng
+    W = rng.choice([2, 8, 12, 16, 16, 24, 32, 33, 64])
+    we = clog2(W)
+    N = 1 if W == 2 else rng.choice([n for n in (1, 2, 3, 4, 8) if n < W])
+    cmax = 0 if W == 2 else rng.choice([0, 0, 1, 2])
+    emax = min(W - N, (1 << we) - 1 - N) - cmax
+    if emax < 0: return
+    x = s.decl('InPort', W); s.avail.append(Sig(x, W))
+    offs = []      # offset expressions
+    kinds = rng.sample(['list', 'slice', 'bit', 'struct'], rng.randrange(1, 4))
+    loop_list = None
+    for kd in kinds:
+      if kd == 'list':
+        n = rng.choice([2, 3, 4]); nm = s.name_sig('vo')
+        s.lines.append(f's.{nm} = [ InPort( {we} ) for _ in range({n}) ]'); s.limits.append((rf's\.{nm}\[', emax + 1))
+        offs += [f's.{nm}[{i}]' for i in range(n)]; loop_list = (f's.{nm}', n); s.feat('varslice:offset-list-element')
+      elif kd == 'slice':
+        nm = s.name_sig('vb'); lo = rng.randrange(0, 4)
+        s.lines.append(f's.{nm} = InPort( {we + 5} )'); s.limits.append((rf's\.{nm}$', [(lo, we, emax + 1)]))
+        offs.append(f's.{nm}[{lo}:{lo + we}]'); s.feat('varslice:offset-slice')
+      elif kd == 'bit' and we == 1:
+        nm = s.name_sig('vb'); k = rng.randrange(0, 4)
+        s.lines.append(f's.{nm} = InPort( 4 )'); s.limits.append((rf's\.{nm}$', [(k, 1, emax + 1)]))
+        offs.append(f's.{nm}[{k}]'); s.feat('varslice:offset-bit')
+      elif kd == 'struct':
+        tn = f'Vs{s.uid}_{s.nsig}'; na = rng.choice([1, 2, 3])
+        s.pre += ['@bitstruct', f'class {tn}:', f'  off: Bits{we}', f'  arr: [ ' + ', '.join([f'Bits{we}'] * na) + ' ]', '  pad: Bits3']
+        nm = s.name_sig('vs'); s.lines.append(f's.{nm} = InPort( {tn} )')
+        # layout: off | arr[na-1] ... arr[0] | pad      (first field most significant, element 0 least significant)
+        s.limits.append((rf's\.{nm}$', [(3 + na * we, we, emax + 1)] + [(3 + j * we, we, emax + 1) for j in range(na)]))
+        offs += [f's.{nm}.off'] + [f's.{nm}.arr[{j}]' for j in range(na)]; s.feat('varslice:offset-struct-field'); s.feat('varslice:offset-packed-array-element')
+    if not offs: return
+    m = len(offs) + (1 if loop_list else 0)
+    on = s.name_sig('vy'); s.lines.append(f's.{on} = [ OutPort( {N} ) for _ in range({m}) ]')
+    body = []
+    for k, e in enumerate(offs):
+      c = rng.randrange(0, cmax + 1)
+      if c and rng.random() < 0.6: e = f'{e} + {c}'; s.feat('varslice:offset-arith')
+      body.append(f's.{on}[{k}] @= {x}[ {e} : {e} + {N} ]')
+    if loop_list:
+      t, n = loop_list
+      # the last output collects the selections of all list elements, indexed by the loop variable
+      s.ntmp += 1; acc = f't{s.ntmp}'
+      body.append(f'{acc} = Bits{N}( 0 )')
+      body += [f'for i in range({n}):', f'  {acc} = {acc} ^ {x}[ {t}[i] : {t}[i] + {N} ]', f's.{on}[{m - 1}] @= {acc}']
+      s.feat('tmpvar-accumulated-in-loop')
+      s.feat('varslice:offset-list-element-loopvar')
+    s.comb_block(body)
+    for k in range(m): s.avail.append(Sig(f's.{on}[{k}]', N))
 
   def add_ifc_tree(s):
     """interfaces nested in (lists of) interfaces, 1-3 levels, every output member driven from an update block"""
